@@ -333,3 +333,15 @@ Definition kextra (k : mkind) : bytes :=
 Lemma mp_ct_shape k b : mp_ct k b = bs "multipart/" ++ kname k ++ bs "; boundary=" ++ [34%N] ++ b ++ 34%N :: kextra k.
 Proof. unfold mp_ct, kname, kextra, q. destruct k; rewrite <- ?app_assoc; reflexivity. Qed.
 
+
+(* a Message whose body is a MIME part: the message's own header fields, then the part's, in one header
+   section.  It is the part with the message's fields put in front of its own. *)
+Definition with_fields (mh : list (bytes * bytes)) (p : part) : part :=
+  match p with
+  | PSingle hs body => PSingle (mh ++ hs) body
+  | PMulti hs b ps => PMulti (mh ++ hs) b ps
+  end.
+Lemma render_app a b : render (a ++ b) = render a ++ render b.
+Proof. unfold render. apply flat_map_app. Qed.
+Theorem message_is_part mh p : render mh ++ fmt p = fmt (with_fields mh p).
+Proof. destruct p as [hs body|hs b ps]; cbn [with_fields fmt]; rewrite render_app, <- !app_assoc; reflexivity. Qed.
